@@ -144,6 +144,10 @@ def run(tier, seed, procs=16):
     for spec_ in T.values():
         used = {j for st in spec_["steps"].values() for j in st["jobs"]}
         for j in [j for j in spec_["jobs"] if j not in used]: del spec_["jobs"][j]
+    # inputs given without any source must come back without one (only here: C07 requires inputs to carry a source)
+    s_ = copy.deepcopy(T["custom_sources"])
+    s_["jobs"]["job0"]["data_stored"] = (120, "kB", None); s_["networks"]["net0"] = {"bei": (0.06, "kWh/GB", None)}
+    T["custom_sources+inputs_without_source"] = s_
     items = [("services", "services_system", None, None, m) for m in ("inputs-only", "with-calculated", "v9-file")]
     for tname, spec in T.items():
         for m in ("inputs-only", "with-calculated", "live-edit", "v9-file"):
